@@ -6,7 +6,7 @@
    of it (see AppApi.v).  Stated for EVERY well-behaved inner encoder, every chunk
    list, every buffer size, every fault index, every allocation oracle. *)
 From Coq Require Import ZArith List Bool.
-From A1 Require Import Base.Bytes Rt.Types Rt.Der Rt.Uper Rt.Oer Rt.AppApi Rt.AppApiProofs.
+From A1 Require Import Base.Bytes Rt.Types Rt.Der Rt.Uper Rt.Oer Rt.AppApi Rt.AppApiProofs Rt.XerEnc Rt.XerEncProofs Rt.NewBufCap.
 Import ListNotations.
 Local Open Scope Z_scope.
 
@@ -156,3 +156,83 @@ Theorem C07_chunking_irrelevant : forall ch1 ch2 o m,
   asn_encode_to_new_buffer true (Op false (run_script (bytes_script ch2 o))) m (fun _ => false).
 Proof. exact chunking_irrelevant. Qed.
 Print Assumptions C07_chunking_irrelevant.
+
+(* ---- the XER encoders with the size accounting of asn_internal.h made explicit (Rt/XerEnc.v):
+   ASN__CALLBACK adds to er.encoded exactly when the callback succeeded, ASN__TEXT_INDENT is one
+   invocation per level; the value is a named tree of any nesting depth ---- *)
+
+(* ASN__TEXT_INDENT(nl, level), EVERY level: the newline and one chunk of four spaces per level are
+   offered in order, and all of them are counted *)
+Theorem C07_xer_indent_accounting : forall (nl : bool) (level : nat),
+  scr (text_indent nl level)
+      ((if nl then [nl1] else []) ++ repeat sp4 level)
+      (Some ((if nl then 1 else 0) + 4 * Z.of_nat level)).
+Proof. exact text_indent_script. Qed.
+Print Assumptions C07_xer_indent_accounting.
+
+(* every encoder function of the algebra, every value, every indentation level, BASIC and CANONICAL:
+   it offers a fixed chunk list in order, stops at the first failing invocation with -1, and otherwise
+   reports the size of what it offered *)
+Theorem C07_xer_encoders_scripted : forall can v il, exists cs r, scr (xenc can v il) cs r.
+Proof. exact xenc_scripted. Qed.
+Print Assumptions C07_xer_encoders_scripted.
+
+Theorem C07_xer_encoder_well_behaved : forall can tag v, well_behaved false (xer_encoder can tag v).
+Proof. exact xer_encoder_well_behaved. Qed.
+Print Assumptions C07_xer_encoder_well_behaved.
+
+(* through asn_encode, at every depth: reported size = octets delivered; a callback failing at k gives
+   -1/EIO after k+1 invocations and the first k chunks *)
+Theorem C07_xer_api : forall can tag v, exists calls delivered r,
+  fault_free_run false (xer_encoder can tag v) calls delivered r /\
+  calls = length delivered /\
+  (0 <= encoded r -> encoded r = total delivered /\ err r = E0) /\
+  (encoded r < 0 -> encoded r = -1 /\ (err r = EBADF \/ err r = ENOENT)) /\
+  (forall k, (k < calls)%nat ->
+     asn_encode (Some (user_cb (Some k))) true (Op false (xer_encoder can tag v)) (0%nat, []) =
+     Done ((S k, firstn k delivered), {| encoded := -1; err := EIO |})).
+Proof. exact xer_api. Qed.
+Print Assumptions C07_xer_api.
+
+(* the CANONICAL-XER SET OF detour (every element into a buffer of its own, sorted, one invocation per
+   buffer): what is emitted is what the elements counted (assert(control_size == er.encoded) is quiet) *)
+Theorem C07_xer_setof_canonical_control_size : forall mode vs il bufs,
+  collect ((fix go (vs : list xv) : list (bytes * option Z) :=
+              match vs with
+              | [] => []
+              | e :: tl => if is_missing e then go tl
+                           else setof_item true mode il (fun l => xenc true e l) bytes buf_cb [] :: go tl
+              end) vs) = Some bufs ->
+  scr (xenc true (XVSetOf mode vs) il) (sort_bufs bufs) (Some (total bufs)).
+Proof. exact setof_canonical_control_size. Qed.
+Print Assumptions C07_xer_setof_canonical_control_size.
+
+(* depth made explicit: BASIC-XER of a SEQUENCE chain nested d levels deep around any leaf has the size
+   given by the closed recursion chain_size (two indentations per level, growing with the level), for
+   every d and every starting level *)
+Theorem C07_xer_chain_size_every_depth : forall nm leaf cs0 n0,
+  (forall il, scr (xenc false leaf il) cs0 (Some n0)) ->
+  forall d il, exists cs, scr (xenc false (chain nm leaf d) il) cs (Some (chain_size (zlen nm) n0 il d)).
+Proof. exact chain_basic_xer_size. Qed.
+Print Assumptions C07_xer_chain_size_every_depth.
+
+(* ---- the growth rule of dynamic_encoder_cb, exactly (Rt/NewBufCap.v) ---- *)
+
+(* after ANY chunk list the allocation is the least 16 * 2^j STRICTLY above the octets collected: the
+   terminator fits at every total (2^k - 1, 2^k, 2^k + 1 included), at most twice the need is held *)
+Theorem C07_new_buffer_capacity : forall cs,
+  exists st, emit (dynamic_cb no_fail) dyn_start cs = (st, true) /\
+             d_comp st = total cs /\ cap_ok (d_cap st) (total cs).
+Proof. exact new_buffer_capacity. Qed.
+Print Assumptions C07_new_buffer_capacity.
+
+Theorem C07_new_buffer_capacity_unique : forall c1 c2 n, 0 <= n -> cap_ok c1 n -> cap_ok c2 n -> c1 = c2.
+Proof. exact cap_ok_unique. Qed.
+Print Assumptions C07_new_buffer_capacity_unique.
+
+Theorem C07_new_buffer_capacity_at_powers : forall k : nat, (4 <= k)%nat ->
+  cap_ok (2 ^ Z.of_nat k) (2 ^ Z.of_nat k - 1) /\
+  cap_ok (2 ^ Z.of_nat (S k)) (2 ^ Z.of_nat k) /\
+  cap_ok (2 ^ Z.of_nat (S k)) (2 ^ Z.of_nat k + 1).
+Proof. exact capacity_at_powers. Qed.
+Print Assumptions C07_new_buffer_capacity_at_powers.
